@@ -205,6 +205,21 @@ class BaseNode(Node):
             nodes = env.request(node.value_ref, count=1)
         if isinstance(nodes, str):   # block import
             node.value_raw = nodes
+            if node.value_slice:
+                # cut the slice now, as for node references: the raw value then describes the
+                # node's value and the slice does not stay on the node
+                try:
+                    value = json.loads(nodes)
+                except ValueError:
+                    value = nodes    # plain text is sliced as a string
+                value = self.slice_value(list(node.value_slice), value)
+                node.value_slice = None
+                if not node.dimension and not np.isscalar(value):
+                    if getattr(node,'keyword',None)=='mod':
+                        node.value_array = True
+                    else:
+                        raise Exception("Array value set to scalar node:",node.code,value)
+                node.value_raw = self.raw_value(value)
         else:                        # node import
             if isinstance(nodes[0].value, Type):
                 # take the current value of the referenced node (after all its modifications)
